@@ -708,13 +708,21 @@ pub fn memlimit_matrix(prop: &str, seed: u64, nprogs: usize, rep: &mut Report) {
             Some(1 << 32), Some((1 << 32) + need - 1), Some(1 << 40), Some(u64::MAX)];
         limits.dedup();
         for m in limits {
-            for api_name in ["oneshot", "stream", "raw"] {
+            for api_name in ["oneshot", "stream", "raw", "oneshot-sized", "stream-sized"] {
+                // "-sized": the header declares the uncompressed size (no marker): the limit is about the WINDOW
+                // (min(dict, produced)), never about the declared total
+                let sized = api_name.ends_with("-sized");
+                let api_name = api_name.trim_end_matches("-sized");
+                let mut prog_v = prog.clone();
+                if sized {
+                    prog_v.pop();
+                }
                 let mut c = LzmaCase {
                     api: api_name.into(),
                     props,
                     dict: if api_name == "raw" { dict_eff as u32 } else { dict },
-                    prog: prog.clone(),
-                    size_field: None,
+                    prog: prog_v,
+                    size_field: if sized { Some(produced) } else { None },
                     opt: Opt::ReadFromHeader,
                     raw_size: None,
                     memlimit: m,
